@@ -171,8 +171,16 @@ func c20Build(conc bool) func(w *World) {
 		w.scData = d
 		d.L = w.NewNode("L", "d:_i:L", model.NetworkManagementFeatureSetTypeSmart)
 		ne := 2 + w.T.Choose(2, "entities")
+		// entity addresses may be nested ([1] and its sub-entity [1,1]): one address being a prefix
+		// of another must not make them the same entity
+		nested := w.T.Bool(1, 2, "nested-entity")
 		for i := 0; i < ne; i++ {
-			le := d.L.NewLocalEntity([]uint{uint(i + 1)}, model.EntityTypeTypeCEM, 4*time.Second)
+			addr := []uint{uint(i + 1)}
+			if nested && i == ne-1 {
+				addr = []uint{1, 1}
+				w.Probe("c20-nested-entity")
+			}
+			le := d.L.NewLocalEntity(addr, model.EntityTypeTypeCEM, 4*time.Second)
 			d.L.AddEntity(le)
 			d.ents = append(d.ents, le)
 		}
